@@ -12,7 +12,7 @@ RULE = ("construction programs: a pool of expressions shared between several com
         "model is compared with the implementation on the composites; non-trivial = a pool member used in >= 2 composites")
 TRUSTED = pcommon.TRUSTED_PARSE
 
-INPUTS = ["", "a", "ab", "a b", "ab ab", " a", "a,b", "aab", "ba", "a a a a", "(a)", "ab,ab ,a", ",a", "\na", ",ab ,a", "\nab a", "a\nb", "\tab,b"]
+INPUTS = ["", "a", "ab", "a b", "ab ab", " a", "a,b", "aab", "ba", "a a a a", "(a)", "ab,ab ,a", ",a", "\na", ",ab ,a", "\nab a", "a\nb", "\tab,b", "\n ", " \nab"]
 
 
 def pool():
@@ -23,6 +23,8 @@ def pool():
         ("named", lambda: pp.Word("ab")("n")), ("notin", lambda: pp.CharsNotIn(", ")), ("white", lambda: pp.White(" ")), ("act", lambda: pp.Word("ab").add_parse_action(lambda t: t[0].upper())),
         ("fwd", lambda: _fwd()), ("comb", lambda: pp.Combine(pp.Literal("a") + pp.Literal("b"))), ("lws", lambda: (pp.Literal("a") + pp.Literal("b")).leave_whitespace()),
         ("or", lambda: pp.Literal("a") ^ pp.Literal("ab")), ("each", lambda: pp.Literal("a") & pp.Literal("b")), ("wsx", lambda: pp.Word("ab").set_whitespace_chars(" ,")),
+        ("lineend", lambda: pp.LineEnd()), ("white", lambda: pp.White(" ")), ("linestart", lambda: pp.LineStart()),
+        ("linestart-seq", lambda: pp.LineStart() + pp.Word("ab")), ("linestart-grp", lambda: pp.Group(pp.Combine(pp.LineStart() + pp.WordStart("ab")))),
     ]
 
 
@@ -149,7 +151,7 @@ def copy_checks(ctx):
             ctx.case("copy:%s:%s" % (n, how), True, True)
             if strip(b0) != strip(b1):
                 diff = [(s, x, y) for s, x, y in zip(INPUTS, strip(b0), strip(b1)) if x != y][:2]
-                ctx.violation("copy-differs:%s" % n, "%s of pool member %r parses differently: %r" % (how, n, diff),
+                ctx.violation("copy-differs:linestart-led-whitespace" if n.startswith("linestart") else "copy-differs:%s" % n, "%s of pool member %r parses differently: %r" % (how, n, diff),
                               {"kind": "copy", "member": n})
 
 
@@ -185,7 +187,9 @@ def composite_copy_checks(ctx):
                     ctx.case("composite-copy:%s:%s:%s:%d" % (n, sname, how, used_first), True, True)
                     if b0 != b1 and "timeout" not in (b0, b1):
                         diff = [(s, x, y) for s, x, y in zip(INPUTS, b0, b1) if x != y][:2]
-                        ctx.violation("composite-copy-differs:%s:%s" % (n, sname),
+                        # F-12b: LineStart removes the newline from its whitespace set but keeps copyDefaultWhiteChars == True; enclosing
+                        # elements inherit both, so their copies regain the newline (the suite relies on this: not repaired)
+                        ctx.violation("copy-differs:linestart-led-whitespace" if n.startswith("linestart") else "composite-copy-differs:%s:%s" % (n, sname),
                                       "%s of the composite %s with m = pool member %r parses differently from the composite%s: (input, original, copy) %r" % (
                                           how, sname, n, " (after it was used)" if used_first else "", diff), {"kind": "composite-copy"})
 
